@@ -403,6 +403,20 @@ func genLife(r *rand.Rand) lifeInput {
 			}
 		case x < 16 && len(colls) > 1:
 			k := 1 + r.Intn(len(colls)-1)
+			if h2 := anyOpen(); h2 >= 0 && r.Intn(2) == 0 {
+				// a handle that has used the collection keeps an object for it; the collection is dropped and created
+				// again through another handle, gets a feed there - and is then used through the first handle again
+				cn := colls[k]
+				add(lifeOp{Kind: "write", H: h, Coll: cn})
+				add(lifeOp{Kind: "drop", H: h2, Coll: cn})
+				add(lifeOp{Kind: "create", H: h2, Coll: cn})
+				add(lifeOp{Kind: "start", F: nf, H: h2, Coll: cn})
+				feedColl[nf] = cn
+				nf++
+				add(lifeOp{Kind: "write", H: h, Coll: cn})
+				add(lifeOp{Kind: "write", H: h2, Coll: cn})
+				continue
+			}
 			add(lifeOp{Kind: "drop", H: h, Coll: colls[k]})
 			colls = append(colls[:k], colls[k+1:]...)
 		case x < 18:
